@@ -703,6 +703,82 @@ theorem registration_keeps_colors {s : State} (hs : Reachable s) {k : ConfId} {c
   obtain ⟨_, hstep⟩ := registerCls_ok cfg_ok hc hreg
   exact getColor_ext cfg.dfltId (hc.builtin _ (cfgOk_dflt cfg_ok)) (hc.closed hclosed) hstep.sub hstep.len hstep.nc x hx
 
+/-- **The memoised whole text of a result cannot be changed from outside.** Once `str(r)` has made the text, every
+later `str(r)` / `plain_text()` / `len()` returns that very text and leaves the state as it is: in the model a
+result hands out values, never the memo itself (what `fixed_len`, `get_ch_text`, `+` and slices of the real
+`CHTextResult` must do: seeded change C10-m15 breaks it). -/
+theorem whole_memo_stable {s s1 s2 : State} {alloc : Alloc} {r : ResId} {w w' : List Chunk}
+    (h1 : strRes cfg alloc r s = .ok (s1, w)) (h2 : strRes cfg alloc r s1 = .ok (s2, w')) : w' = w ∧ s2 = s1 := by
+  have hmemo : ∃ res, s1.results.lookup r = some res ∧ res.memo = some w := by
+    unfold strRes at h1
+    split at h1
+    · cases h1
+    · rename_i res hres
+      split at h1
+      · rename_i w0 hm
+        cases h1
+        exact ⟨res, hres, hm⟩
+      · simp only [bind, Except.bind] at h1
+        split at h1
+        · cases h1
+        · rename_i v _
+          cases h1
+          exact ⟨_, lookup_cons_eq _ _ _, rfl⟩
+  obtain ⟨res, hres, hm⟩ := hmemo
+  unfold strRes at h2
+  rw [hres] at h2
+  simp only [hm] at h2
+  cases h2
+  exact ⟨rfl, rfl⟩
+
+private theorem lookup_map_keep {κ ν : Type} [BEq κ] [LawfulBEq κ] (f : κ × ν → κ × ν) (hf : ∀ e, (f e).1 = e.1) (k : κ) :
+    ∀ (l : List (κ × ν)), List.lookup k (l.map f) = (List.lookup k l).map (fun v => (f (k, v)).2) := by
+  intro l
+  induction l with
+  | nil => rfl
+  | cons e l ih =>
+    obtain ⟨k0, v0⟩ := e
+    have he : f (k0, v0) = (k0, (f (k0, v0)).2) := by
+      have := hf (k0, v0)
+      exact Prod.ext this rfl
+    simp only [List.map_cons]
+    rw [he]
+    by_cases hk : k = k0
+    · subst hk; simp
+    · rw [lookup_cons_ne _ _ hk, lookup_cons_ne _ _ hk, ih]
+
+/-- **`set_global_colors_config` re-syncs every synced palette.** Right after a configuration is made global,
+every palette object synced with the global configuration (`P(synced=True)`, any class) has exactly the colours
+the new global configuration gives to its accessors — nothing of the former global configuration is left. -/
+theorem set_global_resyncs {s s' : State} {k : ConfId} (h : setGlobal cfg k s = .ok s')
+    {cls : ClassId} {cols : List Color} {ci : ClassInfo} {c : Conf}
+    (hs : s'.synced.lookup cls = some cols) (hci : cfg.classes[cls]? = some ci) (hc : s'.confs.lookup k = some c)
+    (hgp : (cfg.classes[cfg.gpClass]?).isSome) : s'.global = k ∧ cols = snapshot cfg ci c := by
+  unfold setGlobal at h
+  simp only [bind, Except.bind] at h
+  cases hg : getConf s k with
+  | error e => simp [hg] at h
+  | ok c0 =>
+    simp only [hg] at h
+    cases h
+    obtain ⟨e1, _, _, _, _, _, e7⟩ := syncGp_fields cfg { regSynced cfg k (s.synced.map (·.1)) s with global := k }
+    rw [e1] at hc
+    refine ⟨e7, ?_⟩
+    unfold syncGp at hs
+    simp only [] at hs hc
+    rw [hc] at hs
+    cases hg2 : cfg.classes[cfg.gpClass]? with
+    | none => simp [hg2] at hgp
+    | some cg =>
+      simp only [hg2] at hs
+      rw [lookup_map_keep _ (fun e => by cases cfg.classes[e.1]? <;> rfl)] at hs
+      cases hl : List.lookup cls (regSynced cfg k (s.synced.map (·.1)) s).synced with
+      | none => simp [hl] at hs
+      | some v =>
+        simp only [hl, Option.map_some, hci] at hs
+        cases hs
+        rfl
+
 /-- **The synced `global_palette` has no memory either.** After any history its attributes are the
 colours that the global configuration in force gives to its syntax ids (whatever configurations were
 global before, whatever was registered meanwhile). -/
